@@ -805,6 +805,12 @@ class C12(Property):
                     return Failure('recv', 'recv(%d) returned b"" before end of stream (remaining %r)' % (op[1], rem))
                 consumed = v
                 got_value = got_value or bool(v)
+            elif op[0] in ('s', 'p') and op[1] == 0:
+                # degenerate size 0: b'' is the answer; ConnectionClosed is also acceptable, but only once the
+                # stream has really ended (the statement does not say which) - never a value, never a loss
+                if not ((r == 'ok' and rec['v'] == '-') or (r == 'closed' and not rem)):
+                    return Failure('chunk-dependence', '%r on remaining stream %r: got %s %r' % (op, rem, r, rec.get('v')))
+                consumed = b''
             else:
                 want_r, want_v, consumed = self.whole_stream_answer(op, rem, cur_ms)
                 if r != want_r or (r == 'ok' and unhx(rec['v']) != want_v):
